@@ -1,13 +1,13 @@
 #!/bin/sh
 # run every kept seeded change against the check of the property it breaks (scratch copies only); writes seeded/RESULTS.md
-cd /verif || exit 1
+cd ${VERIF_ROOT:-/verif} || exit 1
 OUT=seeded/RESULTS.md
 echo "| seed | property | detected | first violated obligation | replayed input |" > $OUT.tmp
 echo "|---|---|---|---|---|" >> $OUT.tmp
 for d in seeded/C*/; do
   id=$(basename $d); prop=$(python3 -c "import json;print(json.load(open('$d/meta.json'))['property'])")
   log=/tmp/seedrun_$id.log
-  TRY_TIMEOUT=1500 tools/try_patch.sh /verif/$d/patch.diff $prop > $log 2>&1; rc=$?
+  TRY_TIMEOUT=1500 tools/try_patch.sh $(pwd)/$d/patch.diff $prop > $log 2>&1; rc=$?
   v=$(grep -m1 '^VIOLATION' $log | sed 's/.*obligation=\([^ ]*\).*/\1/')
   nv=$(grep -c '^VIOLATION' $log)
   rep=$(grep '^VIOLATION' $log | grep -vc 'no-failing-input-found')
